@@ -331,7 +331,24 @@ def replay_path(prop, result, fresh, wd, info):
     return False
 
 
-HOOKS = {'path': replay_path, 'router': replay_router, 'subject': replay_subject, 'threadpool': replay_threadpool, 'thread': replay_thread, 'localeinfo': replay_localeinfo, 'resource': replay_resource, 'ringbuffer': replay_ringbuffer, 'array': replay_array, 'arrayb': replay_array}
+def replay_file(prop, result, fresh, wd, info):
+    exe = os.path.join(wd, 'file_replay')
+    srcs = [os.path.join(REPO, 'src', f) for f in ('File.cpp', 'Path.cpp', 'Exception.cpp')]
+    cmd = ['g++', '-std=c++20', '-g', '-O0', '-fsanitize=address,undefined', '-I', os.path.join(REPO, 'include'), os.path.join(ROOT, 'replay', 'file_replay.cpp')] + srcs + ['-o', exe]
+    rc, out = _run(cmd, timeout=900)
+    if rc != 0:
+        info['native'] = 'replay driver does not build against the current tree: ' + out[-1500:]
+        return False
+    rc, o = _run(['timeout', '120', exe], timeout=150, env=dict(os.environ, ASAN_OPTIONS='detect_leaks=0'))
+    if rc != 0 and ('CONFIRMED' in o or 'ERROR: AddressSanitizer' in o or 'runtime error' in o):
+        info['native'] = {'input': 'nine byte strings (empty, NUL, 0xFF, CR/LF, 70 kB) x three ways of splitting the writes x write/read modes x three stream positions; open errors',
+                          'outcome': 'CONFIRMED', 'output': '\n'.join([l for l in o.split('\n') if 'CONFIRMED' in l or 'ERROR' in l or 'runtime error' in l][:6])}
+        return True
+    info['native'] = {'outcome': 'NOT-REPRODUCED', 'tried': 'byte strings x write splits x modes x stream positions; open errors'}
+    return False
+
+
+HOOKS = {'file': replay_file, 'path': replay_path, 'router': replay_router, 'subject': replay_subject, 'threadpool': replay_threadpool, 'thread': replay_thread, 'localeinfo': replay_localeinfo, 'resource': replay_resource, 'ringbuffer': replay_ringbuffer, 'array': replay_array, 'arrayb': replay_array}
 
 
 def make_replay(prop, result, fresh, wd, tier):
